@@ -161,15 +161,22 @@ func c19(c *core.Ctx, r *core.Report) {
 			subjects = append(subjects, core.WithAnon(f)...)
 		}
 	}
-	// prop-shorthand handlers: literals that look up the prop tag
-	for _, fn := range c.Scope {
-		if fn.Parent() == nil {
-			continue
+	// prop-shorthand handlers: the functions that look up the prop tag
+	for _, fn := range shorthandHandlers(c) {
+		subjects = append(subjects, core.WithAnon(fn)...)
+	}
+	// helpers of all of these in the same package
+	{
+		seen := map[*ssa.Function]bool{}
+		for _, f := range subjects {
+			seen[f] = true
 		}
-		for _, ci := range core.Calls(fn) {
-			if core.IsExtCall(ci.Common(), "(reflect.StructTag).Lookup") {
-				subjects = append(subjects, fn)
-				break
+		for i := 0; i < len(subjects) && len(subjects) < 64; i++ {
+			for _, ci := range core.Calls(subjects[i]) {
+				if cal := ci.Common().StaticCallee(); cal != nil && c.InScope(cal) && !seen[cal] && core.PkgOf(cal) == core.PkgOf(subjects[i]) && cal.Signature.Recv() == nil {
+					seen[cal] = true
+					subjects = append(subjects, core.WithAnon(cal)...)
+				}
 			}
 		}
 	}
@@ -235,6 +242,9 @@ func c19(c *core.Ctx, r *core.Report) {
 					cons := fmt.Sprintf("index#%d@%s", ord, core.FnName(fn))
 					k, isK := core.ConstInt(idx)
 					ok, why := false, "index is not a constant under a length guard"
+					if !isK && loopIndexInRange(base, idx, b) {
+						ok, why = true, "counting index under a dominating i < len(base) guard"
+					}
 					if isK {
 						if call, isCall := core.Norm(base).(*ssa.Call); isCall && isSplitFamily(call) && k == 0 {
 							ok, why = true, "element 0 of a Split result"
@@ -299,144 +309,42 @@ func c19(c *core.Ctx, r *core.Report) {
 		r.Floor("C19.R2", "formatArgType call sites", n, 4)
 	}
 
-	// ---- R3 key normalisation
-	nAcc := 0
-	for i := 0; i < tagArg.NumMethods(); i++ {
-		f := c.Prog.FuncValue(tagArg.Method(i))
-		if f == nil {
-			continue
-		}
-		for _, fn := range core.WithAnon(f) {
-			for _, b := range fn.Blocks {
-				for _, in := range b.Instrs {
-					var m, key ssa.Value
-					switch x := in.(type) {
-					case *ssa.MapUpdate:
-						m, key = x.Map, x.Key
-					case *ssa.Lookup:
-						if _, isMap := x.X.Type().Underlying().(*types.Map); !isMap {
-							continue
-						}
-						m, key = x.X, x.Index
-					default:
-						continue
-					}
-					if core.NamedOf(m.Type()) != tagArg {
-						continue
-					}
-					nAcc++
-					ok := false
-					for _, o := range core.Origins(key, nil) {
-						if call, isCall := o.(*ssa.Call); isCall && core.IsCallTo(call.Common(), fmtArg) {
-							ok = true
-						}
-						if ex, isEx := o.(*ssa.Extract); isEx {
-							if _, isNext := ex.Tuple.(*ssa.Next); isNext {
-								ok = true // a key just read from the map
-							}
-						}
-						if u, isU := o.(*ssa.UnOp); isU {
-							_ = u
-							ok = ok || keysFromSameMap(o)
-						}
-					}
-					r.Check(ok, "C19.R3", fmt.Sprintf("map-access#%d@%s", nAcc, core.FnName(fn)), c.Pos(in.Pos()), "the TagArg map is accessed with a key normalised by formatArgType (or a key read from the map itself)")
-				}
-			}
-		}
-	}
-	r.Floor("C19.R3", "TagArg map accesses", nAcc, 4)
-
-	// ---- R4 block-aware splitting
-	parse := c.DeclaredMethod(tagArg, "Parse")
-	if parse == nil {
-		r.Undecided("C19.R4", "role:TagArg.Parse", "", "TagArg.Parse not found")
+	// ---- R3 / R4: the grammar itself, decided on concrete tag texts (parser, lookups, required test, prop shorthand)
+	trs, n, und := tagTable(c)
+	r.Count("tag_table_runs", n)
+	if und != "" {
+		r.Undecided("C19.R4", "tag-table@component_definition.NewProperty", "", "abstract interpretation left the model: "+und)
 	} else {
-		seps := map[string]bool{}
-		bad := ""
-		var parseCalls []ssa.CallInstruction
-		for _, f := range c.StaticCalleesInPkg(parse, map[*ssa.Function]bool{fmtArg: true}) {
-			for _, g := range core.WithAnon(f) {
-				parseCalls = append(parseCalls, core.Calls(g)...)
+		newProp := c.Func("component_definition", "NewProperty")
+		trs.report(c, r, newProp, func(row string) string {
+			switch row {
+			case "total":
+				return "C19.R1"
+			case "lookup":
+				return "C19.R3"
+			case "required":
+				return "C19.R5"
 			}
-		}
-		for _, ci := range parseCalls {
-			cal := core.Callee(ci.Common())
-			if cal == nil {
-				continue
-			}
-			switch cal.String() {
-			case "github.com/go-kid/strings2.Split":
-				sep, _ := core.ConstString(ci.Common().Args[1])
-				blockAware := false
-				for _, o := range core.Origins(ci.Common().Args[2], nil) {
-					if u, isU := o.(*ssa.UnOp); isU {
-						if g, isG := u.X.(*ssa.Global); isG && g.Name() == "DefaultSplitBlock" {
-							blockAware = true
-						}
-					}
-				}
-				if blockAware {
-					seps[sep] = true
-				} else {
-					bad = "Split(" + sep + ") without the bracket-aware setting at " + c.Pos(ci.Pos())
-				}
-			case "strings.Split", "strings.SplitN", "strings.Fields", "strings.Cut":
-				bad = cal.Name() + " (not bracket-aware) at " + c.Pos(ci.Pos())
-			}
-		}
-		r.Check(bad == "" && seps[","] && seps[" "], "C19.R4", "split@"+core.FnName(parse), c.FnPos(parse), "arguments are split at ',' and values at ' ' with the bracket-aware splitter only "+bad)
-		// the value part is the first element and is what Parse returns
-		okRet := true
-		for _, ret := range core.Returns(parse) {
-			ok := false
-			if u, isU := core.Norm(ret.Results[0]).(*ssa.UnOp); isU {
-				if ia, isIA := u.X.(*ssa.IndexAddr); isIA {
-					if k, isK := core.ConstInt(ia.Index); isK && k == 0 {
-						if call, isCall := core.Norm(ia.X).(*ssa.Call); isCall && isSplitFamily(call) {
-							if sep, _ := core.ConstString(call.Common().Args[1]); sep == "," && core.Norm(call.Common().Args[0]) == ssa.Value(parse.Params[1]) {
-								ok = true
-							}
-						}
-					}
-				}
-			}
-			if !ok {
-				okRet = false
-			}
-		}
-		r.Check(okRet, "C19.R4", "value-part@"+core.FnName(parse), c.FnPos(parse), "Parse returns the text before the first top-level comma")
+			return "C19.R4"
+		}, "tag-table@component_definition.NewProperty", tagRows)
 	}
-	nShort := 0
-	for _, fn := range subjects {
-		if fn.Parent() == nil {
+	hs := shorthandHandlers(c)
+	r.Floor("C19.R4", "prop shorthand handlers (functions looking the prop tag up)", len(hs), 1)
+	for _, h := range hs {
+		cons := "shorthand-table@" + core.FnName(h)
+		srs, n2, und2 := shorthandTable(c, h)
+		r.Count("shorthand_table_runs", n2)
+		if und2 != "" {
+			r.Undecided("C19.R4", cons, c.FnPos(h), "abstract interpretation left the model: "+und2)
 			continue
 		}
-		usesLookup := false
-		for _, ci := range core.Calls(fn) {
-			if core.IsExtCall(ci.Common(), "(reflect.StructTag).Lookup") {
-				usesLookup = true
+		srs.report(c, r, h, func(row string) string {
+			if row == "total" {
+				return "C19.R1"
 			}
-		}
-		if !usesLookup {
-			continue
-		}
-		for _, ci := range core.Calls(fn) {
-			cal := core.Callee(ci.Common())
-			if cal == nil {
-				continue
-			}
-			if strings.HasPrefix(cal.String(), "strings.Index") || strings.HasPrefix(cal.String(), "strings.Split") || cal.String() == "strings.Cut" {
-				r.Fail("C19.R4", "prop-shorthand@"+core.FnName(fn), c.Pos(ci.Pos()), "the prop shorthand separates value and arguments with "+cal.Name()+", which splits inside brackets")
-			}
-			if cal.String() == "github.com/go-kid/strings2.IndexSkipBlocks" {
-				nShort++
-				sep, _ := core.ConstString(ci.Common().Args[1])
-				r.Check(sep == ",", "C19.R4", "prop-shorthand@"+core.FnName(fn), c.Pos(ci.Pos()), "the prop shorthand separates value and arguments at the first top-level ','")
-			}
-		}
+			return "C19.R4"
+		}, cons, shorthandRows)
 	}
-	r.Floor("C19.R4", "bracket-aware searches in the prop shorthand", nShort, 1)
 
 	// ---- R5 IsRequired table
 	isReq := c.DeclaredMethod(prop, "IsRequired")
@@ -505,6 +413,44 @@ func keysFromSameMap(v ssa.Value) bool {
 			if _, isNext := ex.Tuple.(*ssa.Next); isNext {
 				return true
 			}
+		}
+	}
+	return false
+}
+
+// loopIndexInRange: idx is a counting variable (phi of a non-negative constant and idx+positive constant) used at a
+// block dominated by the true edge of idx < len(base).
+func loopIndexInRange(base, idx ssa.Value, site *ssa.BasicBlock) bool {
+	phi, ok := idx.(*ssa.Phi)
+	if !ok {
+		return false
+	}
+	for _, e := range phi.Edges {
+		if k, isK := core.ConstInt(e); isK {
+			if k < 0 {
+				return false
+			}
+			continue
+		}
+		add, isAdd := e.(*ssa.BinOp)
+		if !isAdd || add.Op != token.ADD || add.X != ssa.Value(phi) {
+			return false
+		}
+		if k, isK := core.ConstInt(add.Y); !isK || k <= 0 {
+			return false
+		}
+	}
+	for _, g := range core.Guards(site) {
+		b, isB := g.If.Cond.(*ssa.BinOp)
+		if !isB || !g.Branch || b.Op != token.LSS || b.X != idx {
+			continue
+		}
+		ln, isCall := b.Y.(*ssa.Call)
+		if !isCall {
+			continue
+		}
+		if bi, isBi := ln.Common().Value.(*ssa.Builtin); isBi && bi.Name() == "len" && core.Norm(ln.Common().Args[0]) == core.Norm(base) {
+			return true
 		}
 	}
 	return false
